@@ -266,7 +266,12 @@ def prepare (s : State) (c : Conn) (ttl : Option Nat) (pid : Option Pid) : State
     ({ s with prep := fun c' p' => if c' = c ∧ p' = p then some (s.now + t) else s.prep c' p' }, OK)
   | _, _ => (s, INVALID)
 
-/-- `connection_lost`: `self.prepared_writes.pop(client, None)` -/
+/-- The connection with peer address `c` ends: `AccessoryDriver.connection_lost` does
+    `self.prepared_writes.pop(client, None)`. It is reached from `HAPServerProtocol.connection_lost`
+    both when the peer goes away and — on the loop turn after `HAPServerProtocol.close()` — when the
+    server itself closed the connection (Connection: close / HTTP/1.0 request, undecryptable frame,
+    idle sweep). `prepared_writes` is keyed by the peer address, so whatever is issued under `c`
+    afterwards is a new connection from the same address and port. -/
 def lose (s : State) (c : Conn) : State :=
   { s with prep := fun c' p' => if c' = c then none else s.prep c' p' }
 
